@@ -983,3 +983,38 @@ func c13WriterBalancer(p *load.Program, r *oblig.Report) {
 	sort.Strings(bad)
 	r.Check(n >= 2 && len(bad) == 0, rule, "(*Writer).balancer returns w.Balancer or a balancer stored in the Writer", p.Pos(fn.Pos()), "if w.Balancer != nil { return w.Balancer }; return &w.roundRobin", strings.Join(bad, "; "))
 }
+
+// c05TimeSiblings: the Client.Fetch path (package protocol) and the Conn/Reader path (root package) each have their own
+// makeTime/timestamp pair. "Decoded to the same records by both paths" needs the two makeTime functions to agree, in
+// particular on "no timestamp" (-1) and on the 0 that timestamp() writes for the zero time: both answer the zero time
+// for t <= 0. Decided: both functions return the same shapes up to the time zone call of the root package.
+func c05TimeSiblings(p *load.Program, r *oblig.Report) {
+	const rule = "C05.R15 both decode paths turn a wire timestamp into the same time"
+	root, proto := p.Func("", "makeTime"), p.Func("protocol", "makeTime")
+	if root == nil || proto == nil {
+		r.Lost(rule, "kafka.makeTime / protocol.makeTime")
+		return
+	}
+	norm := func(fn *ssa.Function) []string {
+		var out []string
+		for _, s := range returnShapesWith(fn, an.ShapeCanon) {
+			if strings.HasPrefix(s, "UTC(") {
+				s = strings.TrimSuffix(strings.TrimPrefix(s, "UTC("), ")")
+			}
+			out = append(out, s)
+		}
+		sort.Strings(out)
+		return out
+	}
+	guard := func(fn *ssa.Function) string {
+		for _, b := range an.Blocks(fn) {
+			if iff, ci := an.IfCond(b); iff != nil && ci != nil {
+				return clean(an.ShapeCanon(iff.Cond))
+			}
+		}
+		return "no guard"
+	}
+	a, b := norm(root), norm(proto)
+	r.Check(strings.Join(a, " | ") == strings.Join(b, " | ") && guard(root) == guard(proto) && len(a) == 2, rule, "kafka.makeTime and protocol.makeTime agree (zero time for t <= 0, Unix milliseconds otherwise)", p.Pos(proto.Pos()),
+		strings.Join(a, " | ")+" when "+guard(root), strings.Join(b, " | ")+" when "+guard(proto))
+}
